@@ -24,6 +24,8 @@ def run(ctx):
     ctx.rule("R07-11", "Ctrl-Z and Ctrl-\\ reach the job: SIGTSTP / SIGQUIT (and anything else the shell ignores) are set back to "
                        "SIG_DFL in the child before exec on every path - an ignored disposition is inherited through "
                        "execve and the job could never be stopped from the keyboard (the analysis of C02 R02-9)")
+    ctx.rule("R07-12", "`jobs` lists the true state also for events that arrive while another command is in the foreground: "
+                       "parked events are taken per pid, never wiped (the analysis of C06 R06-8)")
     ctx.rule("R07-2", "give_terminal_to(child) in the parent is guarded by has_terminal, isatty, !background and only "
                       "for stage 0; its result is stored through the term_given out-parameter")
     ctx.rule("R07-3", "child: setpgid(0, getpid()) in stage 0, setpgid(0, *pgid) otherwise, before exec on every path; "
@@ -71,6 +73,9 @@ def run(ctx):
         ctx.violations[v["key"]] = v
     from .c02 import inherited_dispositions_rule
     inherited_dispositions_rule(ctx, "R07-11")
+    from .c06 import map_mutation_rule
+    for crate in ctx.crates:
+        map_mutation_rule(ctx, crate, "R07-12")
 
 
 def pairing_rule(ctx, crate):
